@@ -181,6 +181,8 @@ class Ctx:
         self._current_case = None
         self._part = None
         self._viol_count = 0
+        self.fuzz = None  # coverage-guided shard: {"index": i, "runs": n, "seconds": s, "result": path}
+        self._explore_idx = 0
 
     # ---- budgets
     @property
@@ -267,6 +269,12 @@ class Ctx:
 
         if max_examples <= 0:
             return
+        if self.fuzz is not None:
+            idx = self._explore_idx
+            self._explore_idx += 1
+            if idx == self.fuzz["index"]:
+                self._fuzz(strategy, run_case, name)  # does not return
+            return
         self._part = name
         runner = self._wrap(run_case)
         last = {}
@@ -296,8 +304,87 @@ class Ctx:
         finally:
             self._part = None
 
+
+    def _fuzz(self, strategy, run_case, name):
+        """Coverage-guided search over the SAME strategy and oracle as explore(): libFuzzer (atheris) mutates
+        the byte buffer Hypothesis draws the case from, guided by branch coverage of the tornado package
+        (instrumented at import in this process).  A failing buffer is handed back to Hypothesis through an
+        in-memory example database, replayed and shrunk there, and the minimal case becomes the replay file.
+        Ends the process: after `runs` executions or `seconds` of budget (inconclusive, never a violation)."""
+        import atheris
+        import hypothesis
+        from hypothesis import HealthCheck, Phase, given, settings
+        from hypothesis.database import InMemoryExampleDatabase
+
+        self._part = "fuzz:" + name
+        runner = self._wrap(run_case)
+        last = {}
+        db = InMemoryExampleDatabase()
+        seed = self.seed_for("fuzz:" + name)
+
+        def make(phases, max_examples):
+            # no @seed here: Hypothesis disables the database for seeded tests, and the database is how the
+            # failing buffer gets from fuzz_one_input to the shrinker; the shrink pass is pinned through the
+            # global PRNG instead (random.seed below)
+            @settings(max_examples=max_examples, database=db, deadline=None, derandomize=False,
+                      report_multiple_bugs=False, suppress_health_check=list(HealthCheck), phases=phases,
+                      print_blob=False)
+            @given(strategy)
+            def test(case):
+                last["case"] = case
+                runner(case)
+
+            return test
+
+        fuzz_one = make([Phase.generate], 1).hypothesis.fuzz_one_input
+        st = {"execs": 0, "t0": time.time()}
+
+        def finish(rc=0):
+            self.extra["fuzz_execs"] = st["execs"]
+            self.extra["fuzz_parts"] = {name: {"execs": st["execs"], "cases": self.parts.get(self._part, 0),
+                                               "wall_s": round(time.time() - st["t0"], 1)}}
+            with open(self.fuzz["result"], "w") as f:
+                json.dump(dict(self.result(), is_fuzz=True), f)
+            sys.stdout.flush()
+            sys.stderr.flush()
+            os._exit(rc)
+
+        def one(data):
+            st["execs"] += 1
+            try:
+                fuzz_one(data)
+            except Violation as v0:
+                case0 = last.get("case")
+                try:  # replay + shrink through Hypothesis (the failing buffer was saved in db)
+                    import random
+
+                    random.seed(seed)
+                    make([Phase.reuse, Phase.shrink], 1)()
+                    self._record_violation(name, case0, v0)  # did not reproduce on replay: keep the original
+                except Violation as v:
+                    self._record_violation(name, last.get("case"), v)
+                except BaseException:
+                    self._record_violation(name, case0, v0)
+                finish(0)
+            except HarnessError:
+                traceback.print_exc()
+                finish(2)
+            except BaseException:
+                traceback.print_exc()
+                finish(2)
+            if st["execs"] >= self.fuzz["runs"] or time.time() - st["t0"] > self.fuzz["seconds"]:
+                finish(0)
+
+        argv = [sys.argv[0], "-runs=%d" % (self.fuzz["runs"] * 4 + 1000), "-seed=%d" % (seed % (2 ** 31 - 1) + 1),
+                "-max_len=16384", "-len_control=0", "-timeout=3600", "-rss_limit_mb=8192", "-print_final_stats=1", "-verbosity=1"]
+        atheris.Setup(argv, one)
+        atheris.Fuzz()
+        finish(0)
+
     def enumerate(self, cases, run_case, name="enum", exhaustive=True, stop_after=3):
         """Finite enumeration: every case of `cases` (sharded i % n == k in the thorough tier)."""
+        if self.fuzz is not None:
+            return
         self._part = name
         runner = self._wrap(run_case)
         k, n = self.shard if self.shard else (0, 1)
@@ -322,7 +409,7 @@ class Ctx:
     def run_replays(self, parts):
         """Run every committed replay of this property first (plain regression checks, no Hypothesis)."""
         d = os.path.join(VERIF, "replays", self.prop)
-        if not os.path.isdir(d) or (self.shard and self.shard[0] != 0):
+        if not os.path.isdir(d) or (self.shard and self.shard[0] != 0) or self.fuzz is not None:
             return
         for fn in sorted(os.listdir(d)):
             if not fn.endswith(".json"):
@@ -424,8 +511,9 @@ def merge_results(results):
             out["excluded_samples"].setdefault(k, v)
         out["violations"].extend(r["violations"])
         out["parts"].update(r["parts"])
-        ex = set(r["exhaustive_parts"])
-        out["exhaustive_parts"] = ex if out["exhaustive_parts"] is None else (out["exhaustive_parts"] & ex)
+        if not r.get("is_fuzz"):
+            ex = set(r["exhaustive_parts"])
+            out["exhaustive_parts"] = ex if out["exhaustive_parts"] is None else (out["exhaustive_parts"] & ex)
         out["replays_run"] += r["replays_run"]
         for k, v in r["extra"].items():
             if isinstance(v, (int, float)) and isinstance(out["extra"].get(k, 0), (int, float)):
@@ -448,7 +536,7 @@ def write_evidence(mod, tier, seed, res, wall, dry=False):
         samples.append({"label": lab, "case": s})
         if len(samples) >= 12:
             break
-    all_parts = set(res["parts"]) - {"replay"}
+    all_parts = {p for p in res["parts"] if p != "replay" and not p.startswith("fuzz:")}
     cov = {
         "evaluations": res["evaluations"],
         "distinct_nontrivial": len(res["nontrivial"]),
@@ -495,13 +583,21 @@ def find_module(prop):
     raise SystemExit("no check module for %s" % prop)
 
 
-def setup_paths():
+def setup_paths(instrument=False):
     deps = os.path.join(VERIF, ".deps")
     for p in (deps, REPO, VERIF):
         if p in sys.path:
             sys.path.remove(p)
     # repo first so the working tree is what gets imported; .deps only supplies hypothesis/atheris
     sys.path[0:0] = [REPO, VERIF, deps]
+    if instrument:  # coverage-guided shard: branch coverage of the tornado package feeds libFuzzer
+        import atheris
+
+        with atheris.instrument_imports(include=["tornado"], enable_loader_override=False):
+            import tornado
+            import tornado.web, tornado.websocket, tornado.httpclient, tornado.simple_httpclient  # noqa
+            import tornado.template, tornado.locks, tornado.queues, tornado.tcpclient, tornado.locale  # noqa
+            import tornado.auth, tornado.wsgi, tornado.process, tornado.platform.asyncio  # noqa
     import tornado
 
     if not os.path.abspath(tornado.__file__).startswith(os.path.abspath(REPO) + os.sep):
@@ -526,6 +622,9 @@ def main(argv=None):
     ap.add_argument("--shard")
     ap.add_argument("--result")
     ap.add_argument("--shards", type=int)
+    ap.add_argument("--fuzz-part", type=int)  # internal: coverage-guided shard for the i-th explore() call
+    ap.add_argument("--fuzz-runs", type=int, default=20000)
+    ap.add_argument("--fuzz-seconds", type=int, default=600)
     args = ap.parse_args(argv)
 
     if os.environ.get("PYTHONHASHSEED") != "0":
@@ -533,10 +632,18 @@ def main(argv=None):
         os.execv(sys.executable, [sys.executable] + sys.argv)
 
     seed = int(os.environ.get("VERIF_SEED") or "1")
-    setup_paths()
+    setup_paths(instrument=args.fuzz_part is not None)
     prop = args.prop.upper()
     mod = importlib.import_module(find_module(prop))
     assert mod.PROPERTY == prop
+
+    if args.fuzz_part is not None:
+        ctx = Ctx(prop, args.tier, seed, shard=(0, 1))
+        ctx.fuzz = {"index": args.fuzz_part, "runs": args.fuzz_runs, "seconds": args.fuzz_seconds, "result": args.result}
+        mod.main(ctx)  # the target explore() call ends the process itself
+        with open(args.result, "w") as f:  # fewer explore() calls than the index: nothing to fuzz
+            json.dump({"no_part": True}, f)
+        return 0
 
     if args.replay:
         ctx = Ctx(prop, args.tier, seed)
@@ -576,6 +683,14 @@ def main(argv=None):
             cmd = [sys.executable, os.path.join(VERIF, "check"), prop, "--tier", args.tier,
                    "--shard", "%d/%d" % (k, nshards), "--result", rp]
             procs.append((k, rp, subprocess.Popen(cmd, stdout=subprocess.PIPE, stderr=subprocess.PIPE, text=True)))
+        fuzz_procs = []
+        nfuzz = 0 if args.tier != "thorough" or os.environ.get("VERIF_NO_FUZZ") else getattr(mod, "FUZZ_PARTS", 3)
+        for i in range(nfuzz):
+            rp = os.path.join(WORK, "%s-fuzz%d.json" % (tag, i))
+            cmd = [sys.executable, os.path.join(VERIF, "check"), prop, "--tier", args.tier, "--fuzz-part", str(i),
+                   "--fuzz-runs", str(getattr(mod, "FUZZ_RUNS", 20000)), "--fuzz-seconds", str(getattr(mod, "FUZZ_SECONDS", 600)),
+                   "--result", rp]
+            fuzz_procs.append((i, rp, subprocess.Popen(cmd, stdout=subprocess.PIPE, stderr=subprocess.PIPE, text=True)))
         results = []
         bad = False
         for k, rp, p in procs:
@@ -589,9 +704,56 @@ def main(argv=None):
                 with open(rp) as f:
                     results.append(json.load(f))
                 os.unlink(rp)
+        fuzz_notes = []
+        for i, rp, p in fuzz_procs:
+            # the coverage-guided shard is an extra: if it cannot run (time budget, libFuzzer trouble) that is
+            # recorded as inconclusive in the evidence and never decides the outcome
+            try:
+                out, err = p.communicate(timeout=getattr(mod, "FUZZ_SECONDS", 600) * 3 + 600)
+            except subprocess.TimeoutExpired:
+                p.kill()
+                out, err = p.communicate()
+                fuzz_notes.append("fuzz part %d: killed after time budget (inconclusive)" % i)
+                continue
+            r = None
+            if os.path.exists(rp):
+                try:
+                    with open(rp) as f:
+                        r = json.load(f)
+                except ValueError:
+                    r = None
+                os.unlink(rp)
+            if r is None:
+                fuzz_notes.append("fuzz part %d: no result (rc=%s) %s" % (i, p.returncode, err[-300:].replace("\n", " | ")))
+                continue
+            if r.get("no_part"):
+                continue
+            cov = [l for l in err.splitlines() if " cov: " in l]
+            if cov:
+                for nm in r.get("extra", {}).get("fuzz_parts", {}):
+                    r["extra"]["fuzz_parts"][nm]["libfuzzer_last"] = cov[-1].strip()[:160]
+            # a violation found under instrumentation counts only if the saved case fails in a plain process too
+            keep = []
+            for v in r.get("violations", []):
+                rc2 = subprocess.run([sys.executable, os.path.join(VERIF, "check"), prop, "--replay", v["replay"]],
+                                     stdout=subprocess.PIPE, stderr=subprocess.STDOUT, text=True).returncode
+                if rc2 == 1:
+                    keep.append(v)
+                    print("VIOLATION property=%s replay=%s" % (prop, v["replay"]))
+                    print("  clause=%s (found by the coverage-guided shard) detail=%s" % (v["clause"], short(v["detail"], 1200)))
+                else:
+                    fuzz_notes.append("fuzz part %d: case %s failed only under instrumentation (replay rc=%s); ignored" % (i, v["replay"], rc2))
+            r["violations"] = keep
+            results.append(r)
         if bad:
             return 2
         res = merge_results(results)
+        res["warnings"].extend(fuzz_notes)
+        fp = {}
+        for r in results:
+            fp.update(r.get("extra", {}).get("fuzz_parts", {}) or {})
+        if fp:
+            res["extra"]["fuzz_parts"] = fp
     else:
         _watchdog(int(os.environ.get("VERIF_WATCHDOG") or (7200 if args.tier == "thorough" else 1500)))
         ctx = Ctx(prop, args.tier, seed)
